@@ -112,6 +112,15 @@ def run(ctx):
                     res.violation("second-driver-open-failed", f"a second LogixDriver(init_tags=False) sharing the tag list failed to open ({sc.label})", {"config": sc.label})
             ncalls = 20 if quick else 40
             for ci in range(ncalls):
+                if ci in (4, 11) and rng.random() < 0.6:
+                    # the accessors are views: evaluating them between reads (a JSON export of the tag list, a look at a definition)
+                    # leaves the driver as it was
+                    def look(drv=sc.drv):
+                        import json as _json
+                        _json.dumps(drv.tags_json)
+                        return len(drv.data_types), drv.info.get("name"), drv.revision_major, len(drv.tags)
+                    sc.b.call("accessors", look)
+                    res.count("accessor-evaluations-between-reads")
                 k = rng.choice([1, 1, 1, 2, 3, 5, 8, 12, 25])
                 reqs = [logixreq.gen_request(sc.prj, rng, sc.conn_size) for _ in range(k)]
                 dense = sc.large and sc.fw >= 21 and not sc.micro   # symbol-instance addressing on a 4000-byte connection: ~12 bytes per request
